@@ -5,7 +5,6 @@ package c04
 
 import (
 	"fmt"
-	"os"
 	"sort"
 	"strings"
 	"sync/atomic"
@@ -280,5 +279,5 @@ func TestCheck(t *testing.T) {
 		}
 	})
 	r.EvalN(int(atomic.LoadInt64(&evals)))
-	os.Exit(r.Finish(500))
+	h.Exit(r.Finish(500))
 }
